@@ -42,10 +42,26 @@ DESC = {
  'C19-2': 'Peer.is_valid: "tautology" (is_global or is_private) removed',
  'C20-1': 'on_block folds pending sets with h > height for both dictionaries (second report at the same height overwrites)',
  'C20-2': '_maybe_notify deletes mempool sets pending for lower heights instead of merging',
+ 'C03-3': 'History.backup rewrites only the newest row of a hashX and stops (an emptied row shadows older rows at the next back-out)',
+ 'C03-4': 'backup_block picks the unspendable rule with > instead of >= GENESIS_ACTIVATION',
+ 'C04-3': 'History.flush split into row batches with the state record in a final batch of its own',
+ 'C04-4': 'LevelDB.write_batch without transaction=True (an exception while the batch is assembled commits a partial batch)',
+ 'C06-3': 'advance_block sets ok = False before the connects-to-tip check (early return for a reorg leaves ok False)',
+ 'C06-4': 'flush_dbs writes the state record a second time also after a history-only flush',
+ 'C07-3': 'on_caught_up: self.touched.clear() instead of a new set (empties the set Notifications has parked)',
+ 'C07-4': 'limited_history freshness judged by notified_height instead of the notify counter (same-height reorg)',
+ 'C09-3': 'DB.fs_tx_hash: tx_num -> hash dict cache never invalidated on reorg (tx numbers are reused)',
+ 'C09-4': 'mempool leaves unspendable outputs out of out_pairs (indices of later outputs shift)',
+ 'C10-3': 'reorg_chain signals backed_up_event only for natural reorgs',
+ 'C10-4': 'has_unconfirmed_inputs computed once at acceptance (found independently of C08-1)',
+ 'C11-3': 'same site as C10-1 (found independently)',
+ 'C11-4': 'same site as C12-1 (found independently)',
+ 'C20-3': 'Notifications._highest_block made monotonic (max) in on_block',
+ 'C20-4': 'a _notifying flag makes _maybe_notify return early while a notify round is awaited',
 }
 print('| change | what it does | checks run (quick tier) and verdict |')
 print('|---|---|---|')
-for d in sorted(glob.glob(os.path.join(os.path.dirname(os.path.abspath(__file__)), 'seeded', 'C*-[0-9]'))):
+for d in sorted(glob.glob(os.path.join(os.path.dirname(os.path.abspath(__file__)), 'seeded', 'C[0-9][0-9]-[0-9]'))):
     name = os.path.basename(d)
     m = json.load(open(os.path.join(d, 'meta.json')))
     ran = []
